@@ -1,4 +1,4 @@
-HOOK_COMMITS = ["64417067", "92b79788", "852cf1e2"]
+HOOK_COMMITS = ["64417067", "92b79788", "852cf1e2", "f5e02400"]
 
 _BP_NOTE = ("Trusted: Coq 8.16.1 kernel + vm_compute; no axioms (Print Assumptions: closed under the global context); the Go harness and "
             "the verif hooks; Go channel/select/mutex/semaphore/timer semantics and pdata container operations are modelled as atomic "
